@@ -301,6 +301,31 @@ impl<'tcx> Cx<'tcx> {
             }
             ConstValue::ZeroSized => {}
             ConstValue::Indirect { alloc_id, offset } => {
+                // a named `&str` / `&[u8]` constant: the value is a fat pointer stored in an allocation; follow it
+                if let ty::Ref(_, inner, _) = t.kind() {
+                    let is_bytes = matches!(inner.kind(), ty::Str) || matches!(inner.kind(), ty::Slice(e) if *e == self.tcx.types.u8);
+                    if is_bytes {
+                        use rustc_middle::mir::interpret::GlobalAlloc;
+                        if let Some(GlobalAlloc::Memory(a)) = self.tcx.try_get_global_alloc(alloc_id) {
+                            let a = a.inner();
+                            let off = offset.bytes();
+                            if off + 16 <= a.len() as u64 {
+                                if let Some((_, p)) = a.provenance().ptrs().iter().find(|(o, _)| o.bytes() == off) {
+                                    let raw = a.inspect_with_uninit_and_ptr_outside_interpreter(off as usize..(off + 16) as usize);
+                                    let addr = u64::from_le_bytes(raw[0..8].try_into().unwrap());
+                                    let len = u64::from_le_bytes(raw[8..16].try_into().unwrap());
+                                    if len <= 65536 {
+                                        if let Some(b) = self.read_bytes(p.alloc_id(), addr, len) {
+                                            out.push(',');
+                                            self.bytes_json(&b, out);
+                                            return;
+                                        }
+                                    }
+                                }
+                            }
+                        }
+                    }
+                }
                 // arrays of u8 / small tables: dump raw bytes if the type has a known size <= 64KiB
                 if let Ok(layout) = self.tcx.layout_of(TypingEnv::fully_monomorphized().as_query_input(t)) {
                     let sz = layout.size.bytes();
